@@ -38,7 +38,7 @@ class FakeBus:
         self.sent.append(msg)
 
 
-VARIANTS = ("plain", "snoop-verbose", "snoop-verbose-active")
+VARIANTS = ("plain", "snoop-verbose", "snoop-verbose-active", "plain-first-only")
 
 
 class Run:
@@ -49,7 +49,7 @@ class Run:
         from odxtools.isotp_state_machine import IsoTpActiveDecoder, IsoTpStateMachine
         self.ids = ids
         self.variant = variant
-        if variant == "plain":
+        if variant in ("plain", "plain-first-only"):
             self.sm = IsoTpStateMachine(list(ids))
         else:
             from odxtools.cli.snoop import init_verbose_state_machine
@@ -69,6 +69,10 @@ class Run:
         try:
             if self.variant == "plain":
                 got = [(i, bytes(t)) for i, t in self.sm.decode_rx_frame(can_id, bytes(data))]
+            elif self.variant == "plain-first-only":
+                # a consumer that takes the (at most one) telegram of a frame and does not resume the generator
+                first = next(iter(self.sm.decode_rx_frame(can_id, bytes(data))), None)  # (the suspended generator is dropped)
+                got = [] if first is None else [(first[0], bytes(first[1]))]
             else:
                 with contextlib.redirect_stdout(_SINK):
                     got = [(i, bytes(t)) for i, t in self.sm.decode_rx_frame(can_id, bytes(data))]
@@ -99,7 +103,10 @@ class Run:
             st = self.impl_state()
         except AttributeError:  # attributes renamed: fall back to a deep repr of the instance dict
             st = repr(sorted(self.sm.__dict__.items()))
-        extra = (tuple(getattr(self.sm, "_frames_received", ())), tuple(getattr(self.sm, "_block_size", ())))
+        # every other attribute the object carries is part of its state too (a cache, a remembered frame size, ...): two
+        # states that differ there must not be merged
+        known = {"_telegram_specified_len", "_telegram_data", "_telegram_last_rx_fragment_idx", "_can_bus"}
+        extra = tuple(sorted((k, repr(v)) for k, v in vars(self.sm).items() if k not in known and not callable(v)))
         return (st, extra, tuple(self.mon[i].key() for i in self.ids))
 
 
